@@ -45,6 +45,21 @@ void verif_in(const char* name, int idx, void* p, int size);
 #define END ((void)0)
 #define HARNESS(name) void name(void)
 #endif
+/* commutative uninterpreted + and * (same definition as ll2c emits; whichever comes first wins) */
+#ifndef VERIF_CUF
+#define VERIF_CUF
+#ifdef __CPROVER__
+static inline float verif_uf_fadd_float(float a, float b) { uint32_t x, y; memcpy(&x, &a, 4); memcpy(&y, &b, 4); return x <= y ? __CPROVER_uninterpreted_fadd_float(a, b) : __CPROVER_uninterpreted_fadd_float(b, a); }
+static inline float verif_uf_fmul_float(float a, float b) { uint32_t x, y; memcpy(&x, &a, 4); memcpy(&y, &b, 4); return x <= y ? __CPROVER_uninterpreted_fmul_float(a, b) : __CPROVER_uninterpreted_fmul_float(b, a); }
+static inline double verif_uf_fadd_double(double a, double b) { uint64_t x, y; memcpy(&x, &a, 8); memcpy(&y, &b, 8); return x <= y ? __CPROVER_uninterpreted_fadd_double(a, b) : __CPROVER_uninterpreted_fadd_double(b, a); }
+static inline double verif_uf_fmul_double(double a, double b) { uint64_t x, y; memcpy(&x, &a, 8); memcpy(&y, &b, 8); return x <= y ? __CPROVER_uninterpreted_fmul_double(a, b) : __CPROVER_uninterpreted_fmul_double(b, a); }
+#else
+static inline float verif_uf_fadd_float(float a, float b) { return a + b; }
+static inline float verif_uf_fmul_float(float a, float b) { return a * b; }
+static inline double verif_uf_fadd_double(double a, double b) { return a + b; }
+static inline double verif_uf_fmul_double(double a, double b) { return a * b; }
+#endif
+#endif
 /* fixed ids of the exception model (vf/ll2c.py EXC_IDS, wrappers/verif_wrap.h) */
 #define VERIF_EXC__ZTISt12domain_error 1
 #define VERIF_EXC__ZTISt16invalid_argument 2
